@@ -4,6 +4,7 @@ package schema
 import (
 	"bytes"
 	"encoding/json"
+	"errors"
 	"reflect"
 	"strings"
 
@@ -69,6 +70,19 @@ func Insert(id ID, data []byte) ([]byte, error) {
 	// Combine the base data with the JSON schema information.
 	// We manually create and add the JSON as this is just simply the quickest
 	// way to do it.
+	data = bytes.TrimSpace(data)
+	if len(data) == 0 || bytes.Equal(data, []byte("null")) {
+		return sdata, nil // no payload, only the schema remains
+	}
+	if len(data) < 2 || data[0] != '{' || data[len(data)-1] != '}' {
+		return nil, errors.New("schema: cannot insert into something that is not a JSON object")
+	}
+	if len(bytes.TrimSpace(data[1:len(data)-1])) == 0 {
+		return sdata, nil // empty object
+	}
+	if id == UnknownID {
+		return data, nil // nothing to insert
+	}
 	data = bytes.TrimLeft(data, "{")
 	sdata = append(bytes.TrimRight(sdata, "}"), byte(','))
 	data = append(sdata, data...)
